@@ -62,7 +62,13 @@ RULE = ('case = one block of save_/load_ calls of the real functions on 1-3 temp
         'on record A before and after a record B that differs from A in the values only / dt only / label only / is a '
         'same-size twin / is unrelated went through the savers and loaders, on two paths and on one path; dt within a '
         'fraction 1e-3 of 1e-4, 100 and 1000 and steps J - 5e-5 + e that round up into a new leading digit; values '
-        'J - 5e-7 + e likewise (carry6); strictly positive records.')
+        'J - 5e-7 + e likewise (carry6); strictly positive records. Round 4 (spelling of the options): load_label of '
+        'load_asig, positionally and by keyword, as Python bool, numpy bool scalar (made directly, by a comparison, taken '
+        'from a bool array), 0-d bool array (also the kept result of a reduction), int 0 / 1, numpy integers of four '
+        'widths and 0-d integer array, both truth values, in one-shot, history, objhist, A;B;A blocks and the dt sweep; '
+        'm as numpy scalars float16/32/64, int8..int64, uint8 and 0-d arrays float16/32/64, int64, uint16; dt of both '
+        'savers and of the Signal constructor as 0-d arrays (float64 / float32 / float16 / six integer dtypes, int8 / '
+        'uint8) and numpy scalars float16, int8..uint64 next to float32 / float64.')
 ASSUMPTIONS = ['the format holds values to 6 and dt to 4 decimals: "same to nd decimals" = the multiple of 10**-nd nearest '
                'to the saved number; within 4 ulps of a half-way point (exact ties included) either neighbour is accepted',
                'finite real values, length >= 1, single-line str label; dt in [1e-4, 1000] is judged (every step the '
@@ -90,6 +96,13 @@ ASSUMPTIONS = ['the format holds values to 6 and dt to 4 decimals: "same to nd d
                'before and after other records were processed (clause A;B;A.third==first)',
                'an attribute that a save ATTACHES to the signal counts as a change of the signal',
                'the label is judged only when requested (load_asig(load_label=True))',
+               '"requested" = the flag is true, however it is spelt: np.bool_(True), a 0-d bool array, the int 1 and numpy '
+               'integers equal to 1 request the label exactly as the Python singleton True does (the parameter is documented '
+               'as bool, the clean tree tests its truth value); the loaded label must be the saved str (clause label==saved('
+               'true flag that is not a Python bool), a sub-count of label==saved(load_label=True)). A false flag in any '
+               'spelling is no request: the label is then not judged by the model, only by A;B;A',
+               'a time step or load factor given as a numpy scalar or 0-d array is the number it holds (float(x)); a witness '
+               'records the numpy type of scalar options (np_types) and the replay casts them back',
                'files are written and read within one process on a local temporary directory; nothing else touches them',
                'oracle vf/oracles/eqsig_format.py is correct (formatter and exact Decimal arithmetic cross-checked)']
 EXHAUSTIVE = {'quick': 'every time step dt = k/10000, k = 1..20000 (all 4-decimal dt up to 2 s), one save + one load each '
@@ -106,7 +119,9 @@ MIN_EVALS = {'quick': {'npts': 120000, 'dt==round4(saved)': 120000, 'values==m*r
                        'save.leaves-arguments-unchanged': 50000, 'earlier-result-intact-after-later-call': 100000,
                        'returned-objects-share-no-memory': 90000, 'block-boundary-record(4095..65536).reload': 60,
                        'refused-save.leaves-previous-record': 2600, 'A;B;A.third==first': 1200,
-                       'loaded-object.copy/deepcopy/pickle==loaded': 1000},
+                       'loaded-object.copy/deepcopy/pickle==loaded': 1000,
+                       'label==saved(true flag that is not a Python bool)': 12000, 'dt-given-as-0-d-array.reload': 2000,
+                       'dt-given-as-numpy-scalar.reload': 5000, 'm-given-as-numpy-scalar|0-d-array': 11000},
              'thorough': {'npts': 2200000, 'dt==round4(saved)': 2200000, 'values==m*round6(saved)': 2200000,
                           'dt.within-half-4th-decimal': 2200000, 'values.within-half-6th-decimal': 2200000,
                           'label==saved(load_label=True)': 200000, 'call-returns': 2000000,
@@ -187,14 +202,22 @@ def _describe_values(values):
     return np.asarray(values), type(values).__name__, extra
 
 
+NP_DT_SCALARS = ('float16', 'float32', 'float64', 'int8', 'int16', 'int32', 'int64', 'uint8', 'uint16', 'uint32', 'uint64')
+DT_TYPES_OK = ('float', 'int') + NP_DT_SCALARS + tuple('0d-' + t for t in NP_DT_SCALARS)
+
+
 def _describe_dt(dt):
-    if isinstance(dt, np.float32):
-        return float(dt), 'float32'
-    if isinstance(dt, np.float64):
-        return float(dt), 'float64'
-    if isinstance(dt, bool):
-        return dt, 'bool'
-    if isinstance(dt, (int, np.integer)):
+    """(plain Python value, form) of a time step as the caller gave it: Python float / int, numpy scalar of a named
+    dtype, or 0-d array ('0d-<dtype>'). The value is exact (float(np.float32(x)) is the float32 number)."""
+    if isinstance(dt, np.ndarray) and dt.ndim == 0 and dt.dtype.name in NP_DT_SCALARS:
+        return dt.item(), '0d-' + dt.dtype.name
+    if isinstance(dt, np.floating) and dt.dtype.name in NP_DT_SCALARS:
+        return float(dt), dt.dtype.name
+    if isinstance(dt, (bool, np.bool_)):
+        return bool(dt), 'bool'
+    if isinstance(dt, np.integer) and dt.dtype.name in NP_DT_SCALARS:
+        return int(dt), dt.dtype.name
+    if isinstance(dt, int):
         return int(dt), 'int'
     if isinstance(dt, float):
         return dt, 'float'
@@ -232,10 +255,10 @@ def _rebuild_values(op):
 
 def _rebuild_dt(op):
     t = op.get('dt_type', 'float')
-    if t == 'float32':
-        return np.float32(op['dt'])
-    if t == 'float64':
-        return np.float64(op['dt'])
+    if t.startswith('0d-') and t[3:] in NP_DT_SCALARS:
+        return np.array(op['dt'], dtype=t[3:])
+    if t in NP_DT_SCALARS:
+        return np.dtype(t).type(op['dt'])
     if t == 'int':
         return int(op['dt'])
     return float(op['dt'])
@@ -475,7 +498,7 @@ def _expected(saved):
     dt = saved.get('dt')
     label = saved.get('label')
     okk = (isinstance(arr, np.ndarray) and arr.ndim == 1 and arr.size >= 1 and arr.dtype.kind in 'fiu'
-           and saved.get('dt_type') in ('float', 'int', 'float32', 'float64'))
+           and saved.get('dt_type') in DT_TYPES_OK)
     if okk and arr.dtype.kind == 'f':
         okk = bool(np.all(np.isfinite(arr)))
     if okk and arr.dtype.kind in 'iu':
@@ -663,6 +686,11 @@ def _history_tick(e):
         if e.get('n_saves', 0) >= 2:
             CTX.ok('history.same-path-reload')
         sv = e.get('saved')
+        dtt = str((sv or {}).get('dt_type'))
+        if dtt.startswith('0d-'):
+            CTX.ok('dt-given-as-0-d-array.reload')
+        elif dtt in NP_DT_SCALARS:
+            CTX.ok('dt-given-as-numpy-scalar.reload')
         if sv and isinstance(sv.get('values'), np.ndarray) and sv['values'].size > LONG_N:
             CTX.ok('long-record(>65536).reload')
         elif sv and isinstance(sv.get('values'), np.ndarray) and sv['values'].size >= 4095:
@@ -675,6 +703,10 @@ def _pre_load(name):
         ffp = args[0] if args else kwargs['ffp']
         kw = {k: v for k, v in kwargs.items() if k != 'ffp'}
         op = {'op': name, 'args': list(args[1:]), 'kwargs': kw}
+        tags = {str(i): a.dtype.name for i, a in enumerate(args[1:]) if isinstance(a, np.generic)}
+        tags.update({k: v.dtype.name for k, v in kw.items() if isinstance(v, np.generic)})
+        if tags:       # a witness is JSON: np.bool_ / np.float32 ... come back as Python numbers; the replay re-casts
+            op['np_types'] = tags
         if not args:
             op['ffp_kw'] = True
         return _begin(ffp, op)
@@ -713,7 +745,21 @@ def _tdesc(r):
     return type(r).__name__
 
 
-def _judge_object(loader, clause, want_name, key, exp, e, result, m, label_requested, outer):
+def flag_form(v):
+    """How a boolean-like option was given: 'bool', 'np.bool_', '0d-bool', 'int', 'np.int64', '0d-int64' ..."""
+    if isinstance(v, np.ndarray):
+        return '%dd-%s' % (v.ndim, v.dtype.name)
+    if isinstance(v, np.generic):
+        return 'np.' + type(v).__name__
+    return type(v).__name__
+
+
+def _m_tick(m):
+    if isinstance(m, np.generic) or (isinstance(m, np.ndarray) and m.ndim == 0):
+        CTX.ok('m-given-as-numpy-scalar|0-d-array')
+
+
+def _judge_object(loader, clause, want_name, key, exp, e, result, m, label_requested, outer, flag=None):
     import eqsig
     ctx = CTX
     want = getattr(eqsig, want_name)
@@ -736,9 +782,18 @@ def _judge_object(loader, clause, want_name, key, exp, e, result, m, label_reque
     _judge_numbers(ctx, key, loader, exp, n_got, dt_got, vals, m)
     if label_requested:
         got_label = getattr(result, 'label', None)
-        ctx.check(got_label == exp['label'], 'label==saved(load_label=True)',
+        l_ok = isinstance(got_label, str) and got_label == exp['label']      # the saved label is a str (domain)
+        ctx.check(l_ok, 'label==saved(load_label=True)',
                   lambda: _witness(key, loader=loader, got_label=got_label, saved_label=exp['label']),
                   '%s: saved label %r, loaded label %r' % (loader, exp['label'], got_label))
+        if flag is not None and type(flag) is not bool:
+            # "when requested": a request is a true flag, however it is spelt (np.bool_ from a bool array or a
+            # comparison, a 0-d bool array, the int 1 ...), not only the Python singleton True
+            ctx.check(l_ok, 'label==saved(true flag that is not a Python bool)',
+                      lambda: _witness(key, loader=loader, flag_form=flag_form(flag), got_label=got_label,
+                                       saved_label=exp['label']),
+                      '%s: label requested with a true %s: saved label %r, loaded label %r'
+                      % (loader, flag_form(flag), exp['label'], got_label))
     _after_refused(ctx, key, loader, e, nv0)
     if outer:
         _history_tick(e)
@@ -776,6 +831,8 @@ def _post_load_sig(args, kwargs, result, pre):
     if exp is None:
         return
     m = args[1] if len(args) > 1 else kwargs.get('m', 1.0)
+    if outer:
+        _m_tick(m)
     _judge_object('load_sig', 'type.load_sig->Signal', 'Signal', key, exp, e, result, m, False, outer)
 
 
@@ -786,10 +843,18 @@ def _post_load_asig(args, kwargs, result, pre):
         return
     load_label = args[1] if len(args) > 1 else kwargs.get('load_label', False)
     m = args[2] if len(args) > 2 else kwargs.get('m', 1.0)
-    if not load_label:
+    try:
+        requested = bool(load_label)
+    except Exception:        # a flag without a truth value (array with several entries): no request to judge
+        CTX.observe('load_label-without-truth-value(not-judged)')
+        requested = False
+    if not requested:
         CTX.observe('label-not-requested(not-judged)')
+    if outer:
+        _m_tick(m)
+        CTX.observe('load_label-form:%s=%s' % (flag_form(load_label), requested))
     _judge_object('load_asig(load_label=%r)' % (load_label,), 'type.load_asig->AccSignal', 'AccSignal', key, exp, e, result, m,
-                  bool(load_label), outer)
+                  requested, outer, flag=load_label)
 
 
 def install(ctx):
@@ -1033,6 +1098,22 @@ def _aba(ctx, op, path, r):
                                        first[4], now[4]))
 
 
+def _retyped(op):
+    """(args, kwargs) of a loader op; options that were numpy scalars in the run and came back from a JSON witness as
+    Python numbers are cast to their numpy type again (np.bool_(True) is not True - that is the point of the class)."""
+    args, kw = list(op.get('args', [])), dict(op.get('kwargs', {}))
+    for k, t in (op.get('np_types') or {}).items():
+        try:
+            if str(k).isdigit():
+                if int(k) < len(args) and not isinstance(args[int(k)], (np.generic, np.ndarray)):
+                    args[int(k)] = np.dtype(t).type(args[int(k)])
+            elif k in kw and not isinstance(kw[k], (np.generic, np.ndarray)):
+                kw[k] = np.dtype(t).type(kw[k])
+        except Exception:
+            pass
+    return args, kw
+
+
 LOADER_PARAMS = {'load_values_and_dt': [], 'load_signal': ['astype'], 'load_sig': ['m'], 'load_asig': ['load_label', 'm']}
 
 
@@ -1077,12 +1158,13 @@ def _execute(eqsig, ctx, op, path):
                 eqsig.save_signal(path, sig)
             r = None
         elif k in ('load_values_and_dt', 'load_signal', 'load_sig', 'load_asig'):
+            l_args, l_kw = _retyped(op)
             if op.get('ffp_kw'):     # everything by keyword (a keyword ffp cannot be followed by positional options)
-                kw = dict(op.get('kwargs', {}))
-                kw.update(zip(LOADER_PARAMS[k], op.get('args', [])))
+                kw = dict(l_kw)
+                kw.update(zip(LOADER_PARAMS[k], l_args))
                 r = getattr(eqsig, k)(ffp=path, **kw)
             else:
-                r = getattr(eqsig, k)(path, *op.get('args', []), **op.get('kwargs', {}))
+                r = getattr(eqsig, k)(path, *l_args, **l_kw)
             if isinstance(r, eqsig.Signal):
                 _LAST['sig'] = r
             _LAST['res'] = r
@@ -1178,12 +1260,45 @@ LABELS = ['a label with spaces', '123', '123 4', '12 0.5000', '3 0.0100', '', 'a
           'ChiChi_EW (scaled, 0.5g) #3']
 _LABEL_CHARS = ''.join(c for c in string.printable if c not in '\t\n\r\x0b\x0c')
 M_LIST = [1, 1.0, 2, 2.0, 0.5, -1, -1.0, 9.81, 0, 0.0, -0.0, np.float64(2.5), np.float32(9.81), np.int64(3), 1e-12, 1e12,
-          -1e-9, 1e9, np.array(2.5), np.array([0.5]), np.array(-1.0), [0.5], (2.0,), [3]]
+          -1e-9, 1e9, np.array(2.5), np.array([0.5]), np.array(-1.0), [0.5], (2.0,), [3],
+          # round 4: numpy scalars of every width and 0-d arrays of other dtypes
+          np.float16(0.5), np.int32(2), np.uint8(3), np.int8(-1), np.int16(-4), np.float64(-0.0), np.float32(0.0),
+          np.array(2), np.array(0.5, dtype=np.float32), np.array(3, dtype=np.uint16), np.array(-2.5, dtype=np.float16),
+          np.array(1), np.float64(1.0), np.int64(0)]
+
+
+def gen_flag(rng, truth):
+    """A boolean-like option (load_label) in every spelling a caller has: the Python bool, a numpy bool scalar (made
+    directly, by a comparison, taken out of a bool array), a 0-d bool array, the ints 0 / 1, numpy integers, a 0-d
+    integer array. Same truth value, other object."""
+    truth = bool(truth)
+    if rng.random() < 0.35:
+        return truth
+    r = int(rng.integers(3, 12))
+    if r == 3:
+        return np.bool_(truth)
+    if r == 4:       # what a comparison of numpy numbers gives
+        return np.float64(2.0) > (1.0 if truth else 3.0)
+    if r == 5:       # an entry of a boolean option array
+        return np.array([truth, not truth, truth])[int(rng.choice([0, 2]))]
+    if r == 6:
+        return np.array(truth)
+    if r == 7:       # 0-d result of a reduction kept as an array
+        return np.asarray(np.array([truth, truth]).all())
+    if r == 8:
+        return int(truth)
+    if r == 9:
+        return [np.int64, np.int32, np.uint8, np.int8][int(rng.integers(4))](int(truth))
+    if r == 10:
+        return np.array(int(truth))
+    return int(truth) if rng.random() < 0.5 else np.bool_(truth)
 
 
 def gen_dt(rng):
     """Returns (dt, class). Every dt is inside the judged range [1e-4, 1000]."""
-    k = int(rng.choice(14, p=[.10, .11, .16, .10, .08, .06, .04, .04, .07, .05, .05, .05, .04, .05]))
+    k = int(rng.choice(15, p=[.09, .10, .15, .09, .07, .05, .04, .04, .07, .05, .05, .05, .04, .05, .06]))
+    if k == 14:  # the same steps as numpy scalars of every width and as 0-d arrays
+        return gen_dt_numpy(rng)
     if k == 13:  # edges: within 1e-3 of the ends of the range, and steps that round UP into a new leading digit
         return gen_dt_edge(rng)
     if k == 10:  # awkward float quotients: dt/(dt/k) != k, (dt/k)*k != dt ...
@@ -1225,6 +1340,35 @@ def gen_dt(rng):
         return int(rng.integers(1000001, 10000000)) / 10000.0, 'dt>100'
     # exact ties of the 4th decimal: odd multiples of 1/32 (5 decimals ending in 5), optionally plus whole seconds
     return (2 * int(rng.integers(0, 16)) + 1) / 32.0 + int(rng.integers(0, 100)) * int(rng.random() < 0.5), 'tie4-dyadic'
+
+
+def gen_dt_numpy(rng):
+    """A time step given as a 0-d array (float64 / float32 / float16 / integer dtypes) or as a numpy scalar other than
+    float64 / float32 (those are classes of their own): what dt = arr.mean(), dt = np.asarray(cfg['dt']), dt =
+    np.diff(t)[0].astype(...) or an integer number of seconds read from an integer array hand over."""
+    r = int(rng.integers(0, 8))
+    if r == 0:
+        kk = max(1, min(1000000, int(round(10.0 ** rng.uniform(0, 6)))))
+        return np.array(kk / 10000.0), '0d-float64(dec4)'
+    if r == 1:
+        return np.array(float(min(1000.0, max(1e-4, 10.0 ** rng.uniform(-4, 3))))), '0d-float64(log)'
+    if r == 2:
+        return np.array(10.0 ** rng.uniform(-3.9, 2.99), dtype=np.float32), '0d-float32'
+    if r == 3:
+        t = [np.int64, np.int32, np.int16, np.uint16, np.uint32, np.uint64][int(rng.integers(6))]
+        return np.array(int(rng.integers(1, 1001)), dtype=t), '0d-integer'
+    if r == 4:
+        t = [np.int8, np.uint8][int(rng.integers(2))]
+        v = int(rng.integers(1, 128 if t is np.int8 else 256))
+        return (np.array(v, dtype=t) if rng.random() < 0.5 else t(v)), 'int8/uint8(0-d or scalar)'
+    if r == 5:
+        t = [np.int64, np.int32, np.int16, np.uint16, np.uint32, np.uint64][int(rng.integers(6))]
+        return t(int(rng.integers(1, 1001))), 'numpy-integer-scalar'
+    if r == 6:
+        d = np.float16(10.0 ** rng.uniform(-2.9, 2.9))
+        return (d if rng.random() < 0.5 else np.array(d)), 'float16(0-d or scalar)'
+    kk = int(round(10.0 ** rng.uniform(0.4, 6)))      # half-way point of the 4th decimal, as a 0-d array
+    return np.array(float(min(100.0, max(1e-4, (kk + 0.5) / 10000.0)))), '0d-float64(halfway4)'
 
 
 CARRY_J = [1, 1, 2, 3, 5, 10, 10, 12, 37, 60, 99, 100, 100, 256, 999, 1000]
@@ -1496,18 +1640,19 @@ def all_loads(rng):
            dict({'op': 'load_signal'}, **_pk(rng, 'astype', 'signal')),
            dict({'op': 'load_signal'}, **_pk(rng, 'astype', 'acc_sig')),
            dict({'op': 'load_sig'}, **_pk(rng, 'm', m1, 0.6)),
-           {'op': 'load_asig', 'kwargs': {'load_label': True, 'm': m2}} if rng.random() < 0.6 else
-           ({'op': 'load_asig', 'args': [True, m2]} if rng.random() < 0.6 else {'op': 'load_asig', 'args': [True], 'kwargs': {'m': m2}})]
+           {'op': 'load_asig', 'kwargs': {'load_label': gen_flag(rng, True), 'm': m2}} if rng.random() < 0.6 else
+           ({'op': 'load_asig', 'args': [gen_flag(rng, True), m2]} if rng.random() < 0.6 else
+            {'op': 'load_asig', 'args': [gen_flag(rng, True)], 'kwargs': {'m': m2}})]
     r = rng.random()
     if r < 0.2:
         ops.append({'op': 'load_asig'})
     elif r < 0.4:
-        ops.append({'op': 'load_asig', 'kwargs': {'load_label': False, 'm': gen_m(rng)}} if rng.random() < 0.5 else
-                   {'op': 'load_asig', 'args': [False, gen_m(rng)]})
+        ops.append({'op': 'load_asig', 'kwargs': {'load_label': gen_flag(rng, False), 'm': gen_m(rng)}} if rng.random() < 0.5 else
+                   {'op': 'load_asig', 'args': [gen_flag(rng, False), gen_m(rng)]})
     elif r < 0.5:
         ops.append({'op': 'load_asig', 'kwargs': {'m': gen_m(rng)}})
     elif r < 0.65:
-        ops.append(dict({'op': 'load_asig'}, **_pk(rng, 'load_label', True)))
+        ops.append(dict({'op': 'load_asig'}, **_pk(rng, 'load_label', gen_flag(rng, True))))
     elif r < 0.8:
         ops.append({'op': 'load_sig'})
     else:
@@ -1574,6 +1719,19 @@ def _run_case(eqsig, ctx, tmpd, ops, cls, info, counter, recipe=None):
     ctx.case(_digest(ops), nontrivial=_nontrivial(saves), cls=cls,
              sample={'class': cls, 'calls': [o['op'] for o in ops][:12], 'first_save_classes': info,
                      'label': saves[0]['label'], 'dt': saves[0]['dt'], 'head': np.asarray(saves[0]['values'])[:5]})
+    for o in ops:
+        if o['op'] == 'load_asig':
+            a, kw = o.get('args') or [], o.get('kwargs') or {}
+            if a or 'load_label' in kw:
+                sub = 'load_label:' + flag_form(a[0] if a else kw['load_label'])
+                ctx.classes[sub] = ctx.classes.get(sub, 0) + 1
+        if o['op'] in ('load_asig', 'load_sig'):
+            a, kw = o.get('args') or [], o.get('kwargs') or {}
+            i = 1 if o['op'] == 'load_asig' else 0
+            mm = a[i] if len(a) > i else kw.get('m')
+            if mm is not None and not isinstance(mm, (int, float)):
+                sub = 'm:' + flag_form(mm)
+                ctx.classes[sub] = ctx.classes.get(sub, 0) + 1
     for sv in saves:
         inf = sv.get('_info') or {}
         for sub in ('values:' + str(inf.get('values')), 'dt:' + str(inf.get('dt')), 'label:' + str(inf.get('label')),
@@ -1854,8 +2012,8 @@ ABA_LOADS = [lambda rng: {'op': 'load_values_and_dt'},
              lambda rng: dict({'op': 'load_signal'}, **_pk(rng, 'astype', ['signal', 'acc_sig', 'sig'][int(rng.integers(3))])),
              lambda rng: dict({'op': 'load_sig'}, **_pk(rng, 'm', gen_m(rng))),
              lambda rng: {'op': 'load_sig'},
-             lambda rng: {'op': 'load_asig', 'kwargs': {'load_label': True, 'm': gen_m(rng)}},
-             lambda rng: {'op': 'load_asig', 'args': [bool(rng.random() < 0.5), gen_m(rng)]},
+             lambda rng: {'op': 'load_asig', 'kwargs': {'load_label': gen_flag(rng, True), 'm': gen_m(rng)}},
+             lambda rng: {'op': 'load_asig', 'args': [gen_flag(rng, rng.random() < 0.5), gen_m(rng)]},
              lambda rng: {'op': 'load_asig'}]
 
 
@@ -1947,7 +2105,9 @@ def case_aba(case_seed):
 
 SWEEP_LOADS = [{'op': 'load_values_and_dt'}, {'op': 'load_signal'}, {'op': 'load_sig', 'kwargs': {'m': 2.0}},
                {'op': 'load_asig', 'kwargs': {'load_label': True}}, {'op': 'load_signal', 'kwargs': {'astype': 'acc_sig'}},
-               {'op': 'load_signal', 'kwargs': {'astype': 'signal'}}]
+               {'op': 'load_signal', 'kwargs': {'astype': 'signal'}},
+               {'op': 'load_asig', 'kwargs': {'load_label': np.bool_(True), 'm': np.float32(0.5)}},
+               {'op': 'load_asig', 'args': [np.array(True), np.array(2.0)]}, {'op': 'load_asig', 'args': [1]}]
 
 
 def sweep_ks(tier, seed):
